@@ -296,6 +296,71 @@ def replay_revision(model):
     return bool(bad), "; ".join(bad) or "equal revisions hash alike"
 
 
+# ------------------------------------------------------------------ bounded stand-in: the operators as python dispatches them ----
+def enum_operators(seed):
+    """the six comparison operators, hash and sorted() as python actually dispatches them on real CPV and atom objects (whatever the class
+    or a parent defines for each operator), over names whose categories / packages are prefixes of one another, versions under several
+    spellings, revisions with zeros on either side, slots, operators, blockers and USE lists"""
+    import itertools
+    import random
+    from pkgcore.ebuild.atom import atom
+    from pkgcore.ebuild.cpv import VersionedCPV
+    rnd = random.Random(seed + 202)
+    fails, cases = [], 0
+
+    def check(kind, objs):
+        nonlocal cases
+        for (na, a), (nb, b) in itertools.combinations(objs, 2):
+            cases += 1
+            try:
+                lt, le, eq, ne, gt, ge = a < b, a <= b, a == b, a != b, a > b, a >= b
+                rlt, rgt, req = b < a, b > a, b == a
+            except Exception as e:
+                if len(fails) < 5:
+                    fails.append({"model": {"kind": kind, "a": na, "b": nb}, "detail": f"comparing {na} with {nb} raised {type(e).__name__}: {e}"})
+                continue
+            probs = []
+            if [lt, eq, gt].count(True) != 1:
+                probs.append(f"exactly one of <, ==, > must hold: {lt}, {eq}, {gt}")
+            if ne == eq:
+                probs.append("!= is not the negation of ==")
+            if le != (lt or eq) or ge != (gt or eq):
+                probs.append(f"<= / >= disagree with < / > / ==: <= {le}, >= {ge}")
+            if rlt != gt or rgt != lt or req != eq:
+                probs.append(f"the mirrored comparison disagrees: b<a {rlt}, b>a {rgt}, b==a {req}")
+            if eq and hash(a) != hash(b):
+                probs.append("equal but the hashes differ")
+            if probs and len(fails) < 5:
+                fails.append({"model": {"kind": kind, "a": na, "b": nb}, "detail": f"{na} vs {nb}: " + "; ".join(probs)})
+        # sorting agrees with <= whatever the input order
+        base = [o for _, o in objs]
+        for _ in range(3):
+            cases += 1
+            sh = base[:]
+            rnd.shuffle(sh)
+            srt = sorted(sh)
+            if any(not (x <= y) for x, y in zip(srt, srt[1:])) and len(fails) < 5:
+                bad = next((str(x), str(y)) for x, y in zip(srt, srt[1:]) if not (x <= y))
+                fails.append({"model": {"kind": kind, "adjacent_after_sorting": list(bad)}, "detail": f"sorted() puts {bad[0]} before {bad[1]} although not ({bad[0]} <= {bad[1]})"})
+    cats = ["dev", "dev-util", "dev.x", "dev+", "app", "app-misc"]
+    pkgs_ = ["zlib", "zlib-ng", "z"]
+    atoms = [f"{c}/{p}" for c in cats for p in pkgs_[:2]]
+    atoms += [f"{op}dev-util/zlib-{v}" for op in ("=", ">=", "~", "<") for v in ("1.0", "1.00", "1.0-r0", "1.0-r1", "1.0-r010", "1.0-r10", "1.01")]
+    atoms += ["dev-util/zlib:0", "dev-util/zlib:0/1", "dev-util/zlib:0=", "dev-util/zlib:=", "dev-util/zlib:*", "!dev-util/zlib", "!!dev-util/zlib", "dev-util/zlib[a,b]", "dev-util/zlib[b,a]",
+              "dev-util/zlib[a(+)]", "dev-util/zlib::gentoo", "=dev-util/zlib-1.0*"]
+    built = []
+    for t in atoms:
+        try:
+            built.append((f"atom({t!r})", atom(t)))
+        except Exception:
+            pass   # not an atom (e.g. ~ with a revision): not part of this enumeration
+    check("atom", built)
+    cpvs = [f"{c}/{p}-{v}" for c in cats[:4] for p in pkgs_[:2] for v in ("1", "1.0", "1.00", "1.0-r0", "1.0-r1", "1.0-r010", "1.0-r0100", "1.0-r10", "1.0_alpha", "1.0_alpha0")]
+    check("cpv", [(f"VersionedCPV({t!r})", VersionedCPV(t)) for t in rnd.sample(cpvs, 36)])
+    return {"name": "C02.operators.bounded_enumeration", "bound": f"all pairs of {len(atoms)} atoms and of 36 of {len(cpvs)} versioned CPVs (categories and packages that are prefixes of one another, version and revision spellings "
+            "with zeros on either side, slots, operators, blockers, USE lists): the six operators, their mirror images, hash on equality, sorted() against <=", "cases": cases, "failures": fails}
+
+
 def tasks():
     return [
         Task("C02.Revision", t_revision, [(F_CPV, "Revision.__eq__"), (F_CPV, "Revision.__hash__")]),
@@ -303,6 +368,7 @@ def tasks():
         Task("C02.atom.cmp_eq_hash", t_atom, [(F_ATOM, "atom.__cmp__"), (F_ATOM, "atom.__init__")], max_paths=200000),
         Task("C02.atom.cmp_is_lexicographic", t_atom_lex, [(F_ATOM, "atom.__cmp__")]),
         Task("C02.atom.order_laws", t_lex_laws, []),
+        Task("C02.operators", None, [(F_ATOM, "atom.__cmp__"), (F_CPV, "CPV.__eq__"), (F_CPV, "CPV.__lt__")], enumerate=enum_operators),
     ]
 
 
